@@ -39,8 +39,23 @@ Proof.
   - split; [intros _; right; right; eauto|reflexivity].
 Qed.
 
+(* the executable specifications of the likely-subtags suite that judge the implementation in the correspondence
+   run - the dictionary reference for maximize / minimize (C06-C08), the CLDR direction facts (C14), the row-by-row
+   and length comparison of the compiled statics with the CLDR data and the advertised version (C18) - are
+   corollaries of the proved theorems: the MODEL's answer passes them on every input (well-formed triples; the
+   ten table names) *)
+From UL Require Oracle OracleSound OracleSoundLikely.
+Theorem C06_oracle_spec_sound : forall op args r,
+  Oracle.oracle_model_likely op args = Some r ->
+  (beqb op (bs "maximize"%string) || beqb op (bs "minimize"%string) = true ->
+   wf_triple (Oracle.opt_arg (Oracle.arg_n 0 args)) (Oracle.opt_arg (Oracle.arg_n 1 args)) (Oracle.opt_arg (Oracle.arg_n 2 args)) = true) ->
+  (beqb op (bs "table_row"%string) || beqb op (bs "table_len"%string) = true -> In (Oracle.arg_n 0 args) OracleSoundLikely.known_tables) ->
+  OracleSound.passes (Oracle.oracle_spec_likely op args r).
+Proof. exact OracleSoundLikely.likely_group_sound. Qed.
+
 Print Assumptions C06_spec.
 Print Assumptions C06_unchanged_iff.
 Print Assumptions C06_all_entries.
 Print Assumptions C06_unchanged_when_full.
 Print Assumptions C06_total.
+Print Assumptions C06_oracle_spec_sound.
